@@ -419,3 +419,38 @@ extern "C" int misc()
   vf_reach("end");
   return 0;
 }
+
+// byte strings with embedded NUL bytes (construction from a buffer is length-delimited): the operations that are not
+// C-string searches - case mapping, replace(char, char), comparison, trim - still work on all length() bytes
+static void anyStr(MStr& m, unsigned maxLen)
+{
+  m.n = vf_pick(maxLen + 1);
+  for(unsigned i = 0; i < m.n; ++i) { m.v[i] = vf_u8(); m.unspec[i] = false; }
+}
+extern "C" int embedded_nul()
+{
+  MStr ma, mb; anyStr(ma, VF_L + 1); anyStr(mb, VF_L);
+  {
+    String a((const char*)ma.v, ma.n), b((const char*)mb.v, mb.n);
+    unsigned q = vf_pick(5);
+    if(q == 0) { a.toUpperCase(); MStr w = ma; for(unsigned i = 0; i < w.n; ++i) w.v[i] = upper(w.v[i]); checkOne(a, w); }
+    else if(q == 1) { a.toLowerCase(); MStr w = ma; for(unsigned i = 0; i < w.n; ++i) w.v[i] = lower(w.v[i]); checkOne(a, w); }
+    else if(q == 2) { byte x = vf_u8(), y = vf_u8(); vf_assume(y != 0); a.replace((char)x, (char)y); MStr w = ma; for(unsigned i = 0; i < w.n; ++i) if(w.v[i] == x) w.v[i] = y; checkOne(a, w); }
+    else if(q == 3)
+    {
+      unsigned j = 0; while(j < ma.n && j < mb.n && ma.v[j] == mb.v[j]) ++j;
+      int want = j < ma.n && j < mb.n ? (ma.v[j] < mb.v[j] ? -1 : 1) : (ma.n < mb.n ? -1 : ma.n > mb.n ? 1 : 0);
+      vf_assert(sign(a.compare(b)) == want, "compare == lexicographic order of the byte strings");
+      vf_assert((a < b) == (want < 0) && (a > b) == (want > 0), "operator< / operator> agree");
+      vf_assert((a == b) == (want == 0), "operator== agrees with compare");
+    }
+    else
+    {
+      a.trim(" ");
+      unsigned st = 0, en = ma.n; while(st < en && ma.v[st] == ' ') ++st; while(en > st && ma.v[en - 1] == ' ') --en;
+      MStr w; w.set(ma.v + st, en - st); checkOne(a, w);
+    }
+  }
+  vf_reach("end");
+  return 0;
+}
